@@ -63,6 +63,10 @@ ITERATORS = {
     "tcvs": ["TCValve"], "gpvs": ["GPValve"], "controls": CONTROL_CLASSES,
     "patterns": ["Pattern"], "curves": ["Curve"], "sources": ["Source"],
 }
+NAME_LIST_KINDS = {"junction": ["Junction"], "tank": ["Tank"], "reservoir": ["Reservoir"], "node": NODE_CLASSES, "pipe": ["Pipe"],
+                   "pump": PUMP_CLASSES, "head_pump": ["HeadPump"], "power_pump": ["PowerPump"], "valve": VALVE_CLASSES, "link": LINK_CLASSES,
+                   "prv": ["PRValve"], "psv": ["PSValve"], "pbv": ["PBValve"], "fcv": ["FCValve"], "tcv": ["TCValve"], "gpv": ["GPValve"],
+                   "control": CONTROL_CLASSES, "pattern": ["Pattern"], "curve": ["Curve"], "source": ["Source"]}
 GETTERS = {"get_node": NODE_CLASSES, "get_link": LINK_CLASSES, "get_control": CONTROL_CLASSES,
            "get_pattern": ["Pattern"], "get_curve": ["Curve"], "get_source": ["Source"]}
 ABSTRACT = {"Node": NODE_CLASSES, "Link": LINK_CLASSES, "Pump": PUMP_CLASSES, "Valve": VALVE_CLASSES}
@@ -369,9 +373,11 @@ class WriteScanner:
         return type(self.inst[name])
 
     # -------------------------------------------------------------- variable typing inside one function
-    def _env(self, fn, self_cls):
+    def _env(self, fn, self_cls, name_lists=False):
         """bindings of local names: list of (name, what, line, scope_end) with what = list of concrete class names | 'wn' |
-        'fresh'; `lookup(name, line)` picks the latest binding before the line (loop variables only inside their loop)"""
+        'fresh'; `lookup(name, line)` picks the latest binding before the line (loop variables only inside their loop).
+        name_lists=True (INP writer scan only) also follows `names = list(wn.pipe_name_list)`, `for n in names:`,
+        `pipe = wn.links[n]` / `wn.get_link(n)` to the classes of that kind."""
         binds = []
         for a in fn.args.args:
             if a.arg in ("wn", "wnm", "water_network"):
@@ -416,6 +422,49 @@ class WriteScanner:
                 if best is None or l0 >= best[1]:
                     best = (what, l0)
             return best[0] if best else None
+
+        if name_lists:
+            def list_kind(v):
+                if isinstance(v, ast.Call) and isinstance(v.func, ast.Name) and v.func.id in ("list", "sorted") and len(v.args) == 1:
+                    v = v.args[0]
+                if isinstance(v, ast.Attribute) and v.attr.endswith("_name_list"):
+                    return NAME_LIST_KINDS.get(v.attr[:-len("_name_list")])
+                return None
+
+            extra = []
+            for n in ast.walk(fn):
+                if isinstance(n, ast.Assign) and len(n.targets) == 1 and isinstance(n.targets[0], ast.Name) and list_kind(n.value):
+                    extra.append((n.targets[0].id, ("names", list_kind(n.value)), n.lineno, None))
+            for n in ast.walk(fn):   # report = wn.options.report
+                if isinstance(n, ast.Assign) and len(n.targets) == 1 and isinstance(n.targets[0], ast.Name) and isinstance(n.value, ast.Attribute):
+                    ch = _chain(n.value) or []
+                    for k in (1, 2):
+                        if len(ch) > k and ".".join(ch[:k]) in WN_NAMES and ch[k] in ("options", "_options"):
+                            extra.append((n.targets[0].id, ("options", ".".join(ch[k + 1:])), n.lineno, None))
+            binds += extra
+            extra = []
+            for n in ast.walk(fn):
+                if isinstance(n, ast.For) and isinstance(n.target, ast.Name):
+                    k = list_kind(n.iter)
+                    if k is None and isinstance(n.iter, ast.Name):
+                        w = lookup(n.iter.id, n.lineno)
+                        k = w[1] if isinstance(w, tuple) and w[0] == "names" else None
+                    if k:
+                        extra.append((n.target.id, ("name-of", k), n.lineno, n.end_lineno))
+            binds += extra
+            extra = []
+            for n in ast.walk(fn):
+                if isinstance(n, ast.Assign) and len(n.targets) == 1 and isinstance(n.targets[0], ast.Name):
+                    v, key = n.value, None
+                    if isinstance(v, ast.Subscript) and isinstance(v.value, ast.Attribute) and v.value.attr in ("links", "nodes"):
+                        key = v.slice
+                    elif isinstance(v, ast.Call) and isinstance(v.func, ast.Attribute) and v.func.attr in ("get_link", "get_node") and len(v.args) == 1:
+                        key = v.args[0]
+                    if isinstance(key, ast.Name):
+                        w = lookup(key.id, n.lineno)
+                        if isinstance(w, tuple) and w[0] == "name-of":
+                            extra.append((n.targets[0].id, list(w[1]), n.lineno + 0.5, None))
+            binds += extra
 
         return lookup
 
@@ -1572,6 +1621,115 @@ def condition_field_all_paths(field):
     return True, "every evaluate() that assigns %s does so on every path (%s); the others never assign it (%s)" % (field, good, never)
 
 
+# =================================================================================================== inpWriterReads
+
+
+def inp_writer_functions():
+    return [(w, n) for w, n in epanet_functions() if w.startswith(("epanet/io.py", "network/io.py"))]
+
+
+def inp_writer_reads(wntr, inst, R):
+    """storage fields the INP writer loads from model-owned objects: {slot: set(where)}.  Every maximal attribute chain in Load
+    context (and getattr(X, 'literal')) of write_inpfile and of the InpFile.write call closure; the root name is typed by the loop /
+    name-list / get_* bindings, `wn` / `self.wn`, else by hasattr reflection over all zoo classes; the first attribute is resolved to
+    storage with Resolver.getter_storage (properties and methods are followed)."""
+    S = WriteScanner(wntr, inst, R)
+    out = {}
+    ALL = ELEMENT_CLASSES + CONTROL_CLASSES + ["Pattern", "Curve", "Source"]
+
+    def add(c, f, w):
+        out.setdefault((c, f), set()).add(w)
+
+    def on_classes(classes, names, w):
+        for c in classes:
+            o = inst.get(c)
+            if o is None or not hasattr(o, names[0]):
+                continue
+            try:
+                for f in R._path(type(o), names[:2], 0):
+                    add(c, f, w)
+            except BrokenTie:
+                add(c, names[0], w)
+
+    def on_wn(names, w):
+        if not names:
+            return
+        if names[0] in ("options", "_options"):
+            add("WaterNetworkModel", "_options", w)
+            if len(names) >= 3:
+                add("Options", ".".join(names[1:3]), w)
+            elif len(names) == 2:
+                add("Options", names[1], w)
+            else:
+                add("WaterNetworkModel", "_options", w)
+            return
+        for f in R._path(type(inst["WaterNetworkModel"]), names[:1], 0):
+            add("WaterNetworkModel", f, w)
+
+    for where, fn in inp_writer_functions():
+        lookup = S._env(fn, None, name_lists=True)
+        guards = _isinstance_guards(fn)
+        parents = {}
+        for n in ast.walk(fn):
+            for c in ast.iter_child_nodes(n):
+                parents[id(c)] = n
+        items = []
+        for n in ast.walk(fn):
+            if isinstance(n, ast.Attribute) and isinstance(n.ctx, ast.Load):
+                par = parents.get(id(n))
+                if isinstance(par, ast.Attribute) and par.value is n:
+                    continue
+                if isinstance(par, ast.Subscript) and par.value is n:
+                    pp = parents.get(id(par))
+                    if isinstance(pp, ast.Attribute) and pp.value is par:
+                        continue
+                ch = _chain(n)
+                if ch is None:
+                    base = n.value
+                    while isinstance(base, (ast.Attribute, ast.Subscript)):
+                        base = base.value
+                    if isinstance(base, ast.Call) and isinstance(base.func, ast.Name) and base.func.id[:1].isupper():
+                        continue  # LinkStatus(value).name: attribute of a freshly made value
+                    if isinstance(base, (ast.Constant, ast.JoinedStr)):
+                        continue  # '...'.format
+                    ch = ["<expr>", n.attr]
+                elif isinstance(par, ast.Call) and par.func is n and len(ch) > 2:
+                    ch = ch[:-1]  # x.a.method(): reads x.a
+                items.append((ch, n.lineno))
+            elif isinstance(n, ast.Call) and isinstance(n.func, ast.Name) and n.func.id == "getattr" and len(n.args) >= 2:
+                a = n.args[1]
+                base = _chain(n.args[0]) or ["<expr>"]
+                if isinstance(a, ast.Constant) and isinstance(a.value, str):
+                    items.append((base + [a.value], n.lineno))
+        for ch, line in items:
+            w = "%s:%d" % (where, line)
+            root = ch[0]
+            if root == "self":
+                if len(ch) >= 3 and ".".join(ch[:2]) in WN_NAMES:
+                    on_wn(ch[2:], w)
+                elif len(ch) >= 3:
+                    on_classes(ALL, ch[2:], w)  # self.<holder>.<attr>: the holder may be a model object
+                continue
+            if len(ch) < 2:
+                continue
+            what = lookup(root, line)
+            if what == "wn" or root in WN_NAMES:
+                on_wn(ch[1:], w)
+            elif isinstance(what, list):
+                g = guards.get((root, line))
+                on_classes([c for c in what if not g or c in g], ch[1:], w)
+            elif isinstance(what, tuple) and what[0] == "options":
+                on_wn(["options"] + [x for x in what[1].split(".") if x] + ch[1:], w)
+            elif what == "fresh" or isinstance(what, tuple):
+                continue
+            else:
+                g = guards.get((root, line))
+                on_classes([c for c in ALL if not g or c in g], ch[1:], w)
+    if not out:
+        raise BrokenTie("the INP writer closure reads nothing the translator can see")
+    return out
+
+
 # =================================================================================================== Lean output
 
 
@@ -1620,6 +1778,13 @@ def gen_lean(tabs):
     out += _lean_list("writtenByEpanet",
                       "slots EpanetSimulator.run_sim (and what it calls on the SAME wn: write_inpfile → InpFile.write → _write_*) can assign on wn objects",
                       tabs["writtenByEpanet"])
+    wset = set(tabs["writtenByActions"]) | set(tabs["writtenBySim"])
+    for sl in tabs["inpWriterReads"]:
+        if sl in wset:
+            out.append(("-- inpWriterReads ∩ written: %s.%s read at %s" % (sl[0], sl[1], ", ".join(tabs["where"]["inpReads"]["%s.%s" % sl][:4])))[:400])
+    out += _lean_list("inpWriterReads",
+                      "storage fields of network objects that the INP writer (wntr/epanet/io.py InpFile.write and every _write_* it calls; "
+                      "EpanetSimulator = write INP + run EPANET) READS", tabs["inpWriterReads"])
     out.append("end Wntr.Frame.Gen")
     return "\n".join(out) + "\n"
 
@@ -1637,6 +1802,7 @@ def build_tables():
     E = epanet_write_tables(wntr, inst, R)
     nrbw, nrbw_ev, decisions, vocab = not_read_before_write(wntr, inst, R, written, list(attr_names) + list(mapping.values()) + list(internal))
     not_reset = [x for x in sorted(written) if x not in set(RS.slots)]
+    IR = inp_writer_reads(wntr, inst, R)
     nrbw_ev = (["notReadBeforeWrite: computed attribute names (getattr(obj, <computed>) in conditions / change tracker) are taken from %s" % vocab]
                + nrbw_ev
                + ["notReadBeforeWrite: OUT %s.%s -- %s" % (x[0], x[1], decisions[x][1]) for x in not_reset if decisions.get(x, ("in",))[0] == "out"])
@@ -1645,11 +1811,13 @@ def build_tables():
         "resetAssigns": sorted(RS.slots), "runInitialises": ri, "runInitialisesWhy": riwhy,
         "notReadBeforeWrite": nrbw, "nrbwEvidence": nrbw_ev, "writtenByEpanet": sorted(E.slots),
         "nrbwDecisions": {"%s.%s" % k: list(v) for k, v in decisions.items()},
+        "inpWriterReads": sorted(IR),
         "notes": ["ControlAction attribute -> private attribute: %s; attribute names in use: %s; internal attributes: %s"
                   % (json.dumps(mapping, sort_keys=True), attr_names, internal)] + notes
                  + ["assignments to `self.<x>` of simulator-internal objects not listed: %d" % S.nself],
         "dropped": ["dropped (not a slot): %s -- %s" % (k, v) for k, v in sorted(S.dropped.items())],
-        "where": {"written": {("%s.%s" % k): sorted(v) for k, v in list(act.items()) + list(S.slots.items())},
+        "where": {"inpReads": {("%s.%s" % k): sorted(v) for k, v in IR.items()},
+                  "written": {("%s.%s" % k): sorted(v) for k, v in list(act.items()) + list(S.slots.items())},
                   "reset": {("%s.%s" % k): sorted(v) for k, v in RS.slots.items()},
                   "reads": {("%s.%s" % k): sorted(v) for k, v in reads.items()}},
         "mapping": mapping,
@@ -1825,7 +1993,71 @@ def gen_spec(rng, quick=True, wide=False, p_speed=0.12):
             hyd = net["options"]["hydraulic_timestep"]
             controls.append({"kind": "time", "time": hyd * rng.choice([1, 2]), "action": {"link": "PX", "attr": "status", "value": 1}})
     kind, over = vary_options(rng, net)
-    return {"net": net, "controls": controls, "opt_kind": kind, "opt_overrides": over}
+    return {"net": net, "controls": controls, "opt_kind": kind, "opt_overrides": over, "edits": gen_edits(rng, net)}
+
+
+def gen_edits(rng, net, force=None):
+    """1-2 mild edits of the DEFINITION through public setters, applied between two runs of the same model object (edit cycle):
+    [{"what": "<Class>.<attribute>", "name": element / curve / pattern name, "f": factor | "d": delta, ...}]"""
+    cands = []
+    for l in net["links"]:
+        if l["type"] == "pump" and l.get("pump_type") == "HEAD":
+            cands += [{"what": "HeadPump.curve", "name": l["curve"], "hf": round(rng.uniform(0.8, 1.15), 3), "qf": round(rng.uniform(0.85, 1.2), 3)}] * 4
+        elif l["type"] == "pump":
+            cands.append({"what": "PowerPump.power", "name": l["name"], "f": round(rng.uniform(0.7, 1.3), 3)})
+        elif l["type"] == "pipe":
+            cands.append({"what": "Pipe.diameter", "name": l["name"], "f": rng.choice([0.8, 1.25])})
+            cands.append({"what": "Pipe.roughness", "name": l["name"], "f": rng.choice([0.8, 1.2])})
+        elif l["type"] == "valve":
+            cands.append({"what": "Valve.initial_setting", "name": l["name"], "f": round(rng.uniform(0.7, 1.3), 3)})
+    for n in net["nodes"]:
+        if n["type"] == "junction":
+            cands.append({"what": "Junction.elevation", "name": n["name"], "d": round(rng.uniform(-2.0, 2.0), 2)})
+            if n.get("demands"):
+                cands.append({"what": "Junction.base_demand", "name": n["name"], "f": round(rng.uniform(0.6, 1.4), 3)})
+        elif n["type"] == "tank":
+            lo, hi = n["min_level"] + 0.2, n["max_level"] - 0.2
+            cands.append({"what": "Tank.init_level", "name": n["name"], "v": round(min(max(n["init_level"] + rng.uniform(-1.0, 1.0), lo), hi), 2)})
+    for pn in net["patterns"]:
+        cands.append({"what": "Pattern.multipliers", "name": pn, "f": round(rng.uniform(0.7, 1.3), 3)})
+    if not cands:
+        return []
+    out = []
+    if force:
+        out += [c for c in cands if c["what"] == force][:1]
+    while len(out) < rng.choice([1, 2]) and len(out) < len(cands):
+        c = rng.choice(cands)
+        if not any(o["what"] == c["what"] and o["name"] == c["name"] for o in out):
+            out.append(dict(c))
+    return out
+
+
+def apply_edit(wntr, wn, e):
+    """one edit through the public API (setters)"""
+    w, nm = e["what"], e["name"]
+    if w == "HeadPump.curve":
+        c = wn.get_curve(nm)
+        c.points = [(q * e["qf"], h * e["hf"]) for (q, h) in c.points]
+    elif w == "Pattern.multipliers":
+        p_ = wn.get_pattern(nm)
+        p_.multipliers = [m * e["f"] for m in p_.multipliers]
+    elif w == "Pipe.diameter":
+        wn.get_link(nm).diameter = wn.get_link(nm).diameter * e["f"]
+    elif w == "Pipe.roughness":
+        wn.get_link(nm).roughness = wn.get_link(nm).roughness * e["f"]
+    elif w == "Valve.initial_setting":
+        wn.get_link(nm).initial_setting = wn.get_link(nm).initial_setting * e["f"]
+    elif w == "PowerPump.power":
+        wn.get_link(nm).power = wn.get_link(nm).power * e["f"]
+    elif w == "Junction.elevation":
+        wn.get_node(nm).elevation = wn.get_node(nm).elevation + e["d"]
+    elif w == "Junction.base_demand":
+        ts = wn.get_node(nm).demand_timeseries_list[0]
+        ts.base_value = ts.base_value * e["f"]
+    elif w == "Tank.init_level":
+        wn.get_node(nm).init_level = e["v"]
+    else:
+        raise ValueError(w)
 
 
 def _small_net(hyd=3600, steps=4, valve=None, valve_status="ACTIVE", pump="POWER", pdd=False, tank=True):
@@ -1913,6 +2145,22 @@ def scenario_specs(rng):
             ctr += [{"kind": "time", "time": hyd * 1, "action": {"link": "P9", "attr": "status", "value": 0}},
                     {"kind": "time", "time": hyd * rng.choice([3, 4]), "action": {"link": "P9", "attr": "status", "value": 1}}]
         out.append(("isolated-junction-" + mode, {"net": net, "controls": ctr, "same_sim": True}))
+    # edit cycle: the head-pump curve (1-point and 3-point), a pattern and a tank level are changed through the public setters
+    # between two runs of the same object
+    for npts in (1, 3):
+        net = _small_net(pump="HEAD", valve=None, steps=2)
+        net["curves"]["curve1"] = [(0.02, 24.0)] if npts == 1 else [(0.0, 30.0), (0.02, 24.0), (0.05, 8.0)]
+        ed = [{"what": "HeadPump.curve", "name": "curve1", "hf": rng.choice([0.8, 1.15]), "qf": rng.choice([0.9, 1.1])}]
+        if npts == 3:
+            ed.append({"what": "Pattern.multipliers", "name": "pat0", "f": 1.2})
+        else:
+            ed.append({"what": "Tank.init_level", "name": "T1", "v": round(rng.uniform(3.0, 5.0), 2)})
+        out.append(("edit-pump-curve-%dpt" % npts, {"net": net, "controls": [], "edits": ed, "edit_cycle": True}))
+    # a valve setting changed by a control that fires and is NOT restored, then EpanetSimulator on the same object (no reset)
+    for vt in rng.sample(["PRV", "FCV", "TCV"], 2):
+        net = _small_net(valve=vt, pump="POWER", steps=3)
+        ctr = [{"kind": "time", "time": hyd, "action": {"link": "V1", "attr": "setting", "value": {"PRV": 18.0, "FCV": 0.0008, "TCV": 60.0}[vt]}}]
+        out.append(("epanet-after-setting-control-" + vt, {"net": net, "controls": ctr, "epanet_after_wntr": True}))
     # option sets the simulators adjust internally: report step larger than / smaller than / not a multiple of the hydraulic step,
     # 'ALL', pattern step != hydraulic step, rule step variants (one directed model of each kind per run)
     for kind in OPTION_KINDS[:-1]:
@@ -2519,6 +2767,10 @@ def family(classes):
 # hypotheses of Props/C11.lean; anything NEW in these sets is a broken tie that triggers the failing-input search)
 KNOWN_OVERLAP = {("HeadPump", "_speed_timeseries.base_value"), ("PowerPump", "_speed_timeseries.base_value"),  # known finding (speed control)
                  ("Rule", "_name")}  # InpFile._write_rules names an unnamed rule after its registry key; io.to_dict emits the key for an empty name
+# run-time-writable slots the INP writer legitimately reads on the unchanged tree (mirror of the list Props/C11.lean pins)
+KNOWN_INP_READS_WRITTEN = {("HeadPump", "_speed_timeseries.base_value"), ("PowerPump", "_speed_timeseries.base_value"),  # [PUMPS] SPEED: definition slot that a speed control writes
+                           ("Rule", "_name"),  # _write_rules tests / names an unnamed rule
+                           ("WaterNetworkModel", "_inpfile")}  # write_inpfile's own handle
 KNOWN_MISSING = {("HeadPump", "_speed_timeseries.base_value"), ("PowerPump", "_speed_timeseries.base_value"),
                  ("Reservoir", "_leak_status"),  # never read for reservoirs
                  ("Control", "_condition._backtrack"), ("Rule", "_condition._backtrack"), ("Control", "_which"), ("Rule", "_which"),
@@ -2532,6 +2784,11 @@ class Judge:
         self.wntr, self.tabs, self.tmpdir, self.ctx = wntr, tabs, tmpdir, ctx
         self.written = set(tabs["writtenByActions"]) | set(tabs["writtenBySim"])
         self.written_epanet = set(tabs["writtenByEpanet"])
+        self.inp_by_cls = {}
+        for c, f in tabs.get("inpWriterReads", []):
+            self.inp_by_cls.setdefault(c, set()).add(f)
+        self.uncovered_inp_reads = {}
+        self.nmodels = 0
         self.uncovered = {}  # slot -> where (tie d)
         self.uncovered_reads = {}
         self.reads_by_cls = {}
@@ -2614,10 +2871,47 @@ class Judge:
         return out
 
     # ---------------------------------------------------------------- the oracles; returns list of (key, what, extra)
-    def judge(self, spec, light=False, third=False):
-        """light: only what the shrinker needs (to_dict + rerun oracles)"""
+    def _reloaded(self, wn):
+        """(model re-created from the JSON text of wn.to_dict(), dictionaries equal?)"""
+        wntr = self.wntr
+        try:
+            wj = wntr.network.from_dict(json.loads(json.dumps(wn.to_dict())))
+            return wj, not dict_diff(to_dict_norm(wn), to_dict_norm(wj))
+        except Exception as e:
+            self.count("reload:raises-" + type(e).__name__)
+            return None, False
+
+    def edit_cycle(self, spec, edits, used=None):
+        """run; edit the definition through public setters; reset; run  ==  the run of the model reloaded from the edited dictionary.
+        `used`: a model object of this spec that has already been simulated (saves the first run)"""
+        wntr = self.wntr
+        we = used
+        if we is None:
+            we = build_model(wntr, spec, fresh=False)
+            self._run(we, spec)
+        try:
+            for e in edits:
+                apply_edit(wntr, we, e)
+        except Exception as ex:
+            self.count("edit-cycle:edit-raises-" + type(ex).__name__)
+            return None
+        we.reset_initial_values()
+        re1 = self._run(we, spec)
+        wj, same = self._reloaded(we)
+        if wj is None or not same:
+            self.count("edit-cycle:reload-not-equal(C13)")
+            return None
+        wj.reset_initial_values()
+        rj = self._run(wj, spec)
+        d = self._diff(rj, re1, spec, "edit")
+        self.count("edit-cycle:" + ("same" if d is None else "differs"))
+        return d
+
+    def judge(self, spec, light=False, third=False, force=False):
+        """light: only what the shrinker needs (to_dict + rerun oracles); force: run every optional cycle (replay)"""
         wntr = self.wntr
         out = []
+        self.nmodels += 1
         wn = build_model(wntr, spec, fresh=True)
         F = state_dump(wn, self.written)
         wn.reset_initial_values()
@@ -2784,6 +3078,57 @@ class Judge:
             self.count("wntr-after-epanet:" + ("same" if d4 is None else "differs"))
             if d4 is not None:
                 out.append(("rerun-differs-after-EpanetSimulator", "a WNTRSimulator run after an EpanetSimulator run of the reset model differs: " + d4, {}))
+        # ---- f. EpanetSimulator after a WNTRSimulator run (no reset) == EpanetSimulator on the model reloaded from the dictionary
+        setting_ctl = any(a.get("attr") == "setting" for c in spec.get("controls", [])
+                          for a in ([c["action"]] if "action" in c else c["then"] + c["else"]))
+        if force or spec.get("epanet_after_wntr") or setting_ctl:
+            ww = build_model(wntr, spec, fresh=False)
+            self._run(ww, spec)
+            wj, same = self._reloaded(ww)
+            if wj is None or not same:
+                self.count("epanet-after-wntr:reload-not-equal(C13)")
+            else:
+                eA = self._epanet(ww, trace=False)
+                eB = self._epanet(wj, trace=False)
+                if eA[0] != "ok" or eB[0] != "ok":
+                    self.count("epanet-after-wntr:not-judged")
+                else:
+                    dd = cmp_outcomes(eA, eB)
+                    self.count("epanet-after-wntr:" + ("same" if dd is None else "differs"))
+                    if dd is not None:
+                        out.append(("epanet-after-wntr-differs-from-reloaded",
+                                    "EpanetSimulator on a model object that WNTRSimulator has just simulated (no reset) differs from "
+                                    "EpanetSimulator on the model re-created from its dictionary (equal to_dict): " + dd, {}))
+        # ---- tie: what write_inpfile really reads is inside Gen.inpWriterReads
+        if self.inp_by_cls:
+            wn.reset_initial_values()
+            with ReadTrace(wntr, wn) as rt:
+                try:
+                    with quiet_fds():
+                        wntr.network.write_inpfile(wn, os.path.join(self.tmpdir, "rt.inp"), units=wn.options.hydraulic.inpfile_units)
+                except Exception as ex:
+                    self.count("inp-read-trace:writer-raises-" + type(ex).__name__)
+            for slot, cands in rt.observed.items():
+                if not any(read_covered((slot[0], f), self.inp_by_cls) for f in cands):
+                    self.uncovered_inp_reads.setdefault(slot, "write_inpfile reads storage field %s.%s (as any of %s)" % (slot[0], slot[1], cands))
+            for f in os.listdir(self.tmpdir):
+                try:
+                    os.remove(os.path.join(self.tmpdir, f))
+                except OSError:
+                    pass
+        # ---- e. edit cycle: equal dictionaries => equal results also for a model object that was simulated BEFORE it was edited
+        edits = spec.get("edits") or []
+        head_pump = any(l["type"] == "pump" and l.get("pump_type") == "HEAD" for l in spec["net"]["links"])
+        if edits and (force or spec.get("edit_cycle") or head_pump or self.nmodels % 2 == 0):
+            for e in edits:
+                self.count("edit:" + e["what"])
+            d = self.edit_cycle(spec, edits, used=wn)   # wn has been simulated several times above; it is edited here, last
+            if d is not None:
+                resp = [e for e in edits if len(edits) == 1 or self.edit_cycle(spec, [e]) is not None] or edits
+                what = "+".join(sorted(set(e["what"] for e in resp)))
+                out.append(("edited-model-differs-from-reloaded:" + what,
+                            "run; edit %s through the public setter(s); reset_initial_values; run  differs from the run of the model re-created "
+                            "from the edited model's own dictionary (equal to_dict): %s" % (what, d), {"edits": resp}))
         return out
 
     def _dict_failures(self, d0, d1, simname, spec):
@@ -2922,6 +3267,8 @@ class C11(Check):
         ctx.cov["notReadBeforeWrite"] = ["%s.%s" % x for x in tabs["notReadBeforeWrite"]]
         ctx.cov["writtenByEpanet"] = ["%s.%s" % x for x in tabs["writtenByEpanet"]]
         ctx.cov["overlap_writtenByEpanet_toDictReads"] = ["%s.%s" % x for x in overlap(tabs["writtenByEpanet"], tabs["toDictReads"])]
+        ctx.cov["tables"]["inpWriterReads"] = len(tabs["inpWriterReads"])
+        ctx.cov["overlap_written_inpWriterReads"] = ["%s.%s" % x for x in overlap(w, tabs["inpWriterReads"])]
         ctx.cov["not_reset_decisions"] = {k: v for k, v in tabs["nrbwDecisions"].items()
                                           if tuple(k.split(".", 1)) in set(missing(w, tabs["resetAssigns"]))}
         vlib.write_if_changed(os.path.join(vlib.GEN, "FrameC11.lean"), gen_lean(tabs))
@@ -2936,6 +3283,11 @@ class C11(Check):
             where = {("%s.%s" % s): tabs["where"]["written"].get("%s.%s" % s, [])[:3] for s in ov}
             broken.append(Broken("proof", "Gen.written ∩ Gen.toDictReads grew",
                                  "slots a run can assign that to_dict reads: %s" % json.dumps(where, sort_keys=True)))
+        ir = [x for x in overlap(w, tabs["inpWriterReads"]) if x not in KNOWN_INP_READS_WRITTEN]
+        if ir:
+            where = {("%s.%s" % x): tabs["where"]["inpReads"].get("%s.%s" % x, [])[:3] for x in ir}
+            broken.append(Broken("proof", "INP writer reads a run-time slot that is not in the known list (Gen.written ∩ Gen.inpWriterReads grew)",
+                                 "the INP file EpanetSimulator writes would depend on what a previous run left behind: %s" % json.dumps(where, sort_keys=True)))
         for nm in ("notReadBeforeWrite", "writtenByEpanet"):
             extra = [x for x in tabs[nm] if x not in set(w)]
             if extra:
@@ -2955,7 +3307,7 @@ class C11(Check):
             yield ("corpus:" + fn, item["spec"])
         for nm, sp in scenario_specs(ctx.rng):
             yield ("scenario:" + nm, sp)
-        n = (40 if ctx.quick else 450) if not wide else (120 if ctx.quick else 600)
+        n = (30 if ctx.quick else 450) if not wide else (120 if ctx.quick else 600)
         for i in range(n):
             yield ("gen%d" % i, gen_spec(ctx.rng, quick=ctx.quick, wide=wide or (i % 7 == 6)))
 
@@ -3020,6 +3372,9 @@ class C11(Check):
             tab = "Gen.writtenByEpanet" if where.startswith("EpanetSimulator") else "Gen.written"
             broken.append(Broken("correspondence", "C11 write trace not covered by " + tab,
                                  "run-time assignment to slot %s.%s observed at %s; %s does not list it" % (slot[0], slot[1], where, tab)))
+        for slot, where in sorted(J.uncovered_inp_reads.items()):
+            broken.append(Broken("correspondence", "C11 INP writer read trace not covered by Gen.inpWriterReads",
+                                 "%s; slot %s.%s is not in the static table (nor a path above / below it)" % (where, slot[0], slot[1])))
         for slot, where in sorted(J.uncovered_reads.items()):
             broken.append(Broken("correspondence", "C11 to_dict read trace not covered by Gen.toDictReads",
                                  "%s; slot %s.%s is not in the static table (nor a path above / below it)" % (where, slot[0], slot[1])))
@@ -3048,7 +3403,7 @@ class C11(Check):
         tmpdir = os.path.join(vlib.BUILD, "c11-tmp-%d" % os.getpid())
         os.makedirs(tmpdir, exist_ok=True)
         try:
-            res = Judge(wntr, tabs, tmpdir).judge(rp["spec"], third=True)
+            res = Judge(wntr, tabs, tmpdir).judge(rp["spec"], third=True, force=True)
         finally:
             try:
                 for f in os.listdir(tmpdir):
